@@ -30,9 +30,14 @@ Definition refusal_name (r : option refusal) : string :=
   | None => "later"      (* no check refuses: an error of the un-finalize writes or of the scan *)
   end.
 
+(* front-ends of the kind "resume": 5 / 6 = blockstore.OpenReadWriteFile on ONE caller-owned handle
+   reused for every reopen (6: the caller moves its cursor in between).  The model has no handle and
+   no cursor: same as the blockstore opened by path. *)
+Definition v_kind_r (n : N) : skind := if (n =? 5) || (n =? 6) then KBlockstore else v_kind n.
+
 Definition run_resume (input : val) : val :=
   let kn := vN (vnth 1 input) in
-  let k := v_kind kn in
+  let k := v_kind_r kn in
   let o := v_wopts (vnth 2 input) in
   let nilr := is_nil_tag (vnth 3 input) in
   let roots := vcids (vnth 3 input) in
@@ -109,7 +114,7 @@ Definition prop_resume (input obs : val) : val :=
       (if vtag (vnth 0 obs) "rejected" then fail "same-roots-rejected" "other" else VT "ok")
     else if vtag (vnth 0 obs) "accepted" then
       (* class of the accepted mismatch, computed from the case *)
-      match open_new (v_kind kn) o (is_nil_tag (vnth 3 input)) roots [] with
+      match open_new (v_kind_r kn) o (is_nil_tag (vnth 3 input)) roots [] with
       | Err _ => fail "mismatch-accepted" "other"
       | Ok s0 =>
         let file := ws_file (end_seg (v_cut (vnth 5 input)) (run_puts s0 (vblocks (vnth 4 input)))) in
